@@ -13,9 +13,11 @@ from . import C08
 ID = "C03"
 MERGE = ["C03commute"]   # clause "scale after compile = compile the pre-multiplied source" (coordinator)
 PROPS_FILE = "Props/C03.v"
+PROPS_EXTRA = ["Props/C03e2e.v"]   # glue: scaling at the level of the rendered HTML (Proofs/GlueScale.v)
 GEN_DEPS: List[str] = []
 ALLOWED_AXIOMS: List[str] = []
 THEOREMS = {
+    "C03e2e_scaled_structure": "full", "C03e2e_td_scaled": "full", "C03e2e_scaled_skeleton": "full", "C03e2e_body_skeleton": "full", "C03e2e_scaled_cells": "full", "C03_compiled_scaled_structure": "full", "C03_compiled_scaled_skeleton": "full", "C03_compiled_scaled_cells": "full", "C03e2e_scale_blocks_trees": "full", "C03e2e_fraction_tags_needed": "example", "C03e2e_id_changes_skeleton_does_not": "example",
     "C03_scale_characterised": "full",
     "C03_scale_blocks_characterised": "full",
     "C03_scale_characterised_ex": "example",
